@@ -36,12 +36,15 @@ def configMain : IO Unit := forLines fun line =>
       | none => IO.println "bad-op"
       | some c =>
         let s0 : Scs := {}
-        let fired := (List.range rejectChecks.length).filter fun i => (rejectChecks.getD i ("", fun _ _ => false)).2 s0 c
-        let acc := setParameterAccepts s0 c
-        let op := setParameterAcceptsOperational s0 c
-        let oob := setParameterOob s0 c
-        let sp := Spec.ConfigDomain.codeDomainB s0 c
-        IO.println s!"accept={if acc then 1 else 0} op={if op then 1 else 0} oob={if oob then 1 else 0} spec={if sp then 1 else 0} fired={",".intercalate (fired.map toString)}"
+        if setParameterOob s0 c then
+          -- the C copy loops would run outside the member arrays: behaviour undefined, nothing to compare
+          IO.println "accept=- op=- oob=1 spec=- fired="
+        else
+          let fired := (List.range rejectChecks.length).filter fun i => (rejectChecks.getD i ("", fun _ _ => false)).2 s0 c
+          let acc := setParameterAccepts s0 c
+          let op := setParameterAcceptsOperational s0 c
+          let sp := Spec.ConfigDomain.codeDomainB s0 c
+          IO.println s!"accept={if acc then 1 else 0} op={if op then 1 else 0} oob=0 spec={if sp then 1 else 0} fired={",".intercalate (fired.map toString)}"
   | ["DUMP", d] =>
     match d.toInt? with
     | none => IO.println "bad-op"
